@@ -47,6 +47,8 @@ BY_FILE = {
 def checks_for(d, prop):
     files = [l[6:].strip() for l in open(os.path.join(d, "patch.diff")) if l.startswith("+++ b/")]
     out = [prop]
+    if os.environ.get("BENIGN_ALL"):
+        return out + [c for c in ("C%02d" % i for i in range(1, 21)) if c != prop]
     for f in files:
         for k, v in BY_FILE.items():
             if f.startswith(k):
@@ -111,9 +113,10 @@ def matrix(update=False, jobs=3, only=None):
     def one(n):
         d = os.path.join(BENIGN, n)
         m = json.load(open(os.path.join(d, "meta.json")))
-        res = run_checks(d, checks_for(d, m["property"]))
+        todo = [c for c in checks_for(d, m["property"]) if not (os.environ.get("BENIGN_ALL") and m.get("checks", {}).get(c, {}).get("verdict") == "SILENT")]
+        res = run_checks(d, todo)
         if update:
-            m["checks"] = res
+            m.setdefault("checks", {}).update(res)
             json.dump(m, open(os.path.join(d, "meta.json"), "w"), indent=1)
         return n, res
 
